@@ -85,6 +85,7 @@ int main(int argc, char ** argv) {
   for (int j = 0; j < jobs; j++) { SQ.states += SH[j].states; SQ.transitions += SH[j].transitions; SQ.evaluations += SH[j].configs; SQ.distinct += SH[j].terminals; capped += SH[j].capped;
     for (int k = 0; k < SH[j].nfound; k++) { char arg[60]; snprintf(arg, sizeof arg, "--tier %s --conf %d", tier ? "thorough" : "quick", atoi(SH[j].fkey[k] + 5)); sq_found(SH[j].fkey[k], arg, "%s", SH[j].found[k]); } }
   if (capped) SQ.exhaustive = 0;
+  if (SQ.states == 0) { SQ.engine_error = 1; fprintf(stderr, "ENGINE-ERROR no state explored (configuration too large for unitmc.c REGION_MAX?)\n"); }   /* never report a vacuous run as a pass */
   sq_detail("%d configurations (2-3 participants pushing/popping the sleeper stack or enqueueing/dequeueing the sleep queue x memory model), each explored exhaustively; %ld capped", nconf, capped);
   sq_sample("TSO A='p' B='p' C='PP' (two sleepers push, the last arriver pops both)"); sq_sample("SC A='ee' B='e' C='DDD'");
   return sq_end(stats);
